@@ -1267,13 +1267,19 @@ def scale_pass(ctx, rng, quick, hbin, scratch, report):
             # every (file, mask) under one environment (round robin), the short ones under two
             # the short twins and the very long files twice; a very long file once on the normal stack (stack=0: the main
             # thread of the harness, 8 MiB) and once on a small one
-            for rep in range(2 if b['blocks'] < 1000 or b['blocks'] >= 100000 else 1):
+            for rep in range(2 if b['blocks'] < 1000 or b['blocks'] >= 100000 else 1 if quick else 3):
                 env_i = k % len(envs)
                 k += 1
                 stack = 0 if b['blocks'] >= 100000 and rep == 0 else rng.choice([64, 128, 128, 256])
                 full = len([d for d in b['want'] if TYPE_BIT[d[0]] & mask])
-                sc = scen(fmt='pbf', data=name, src='mem' if rng.chance(3, 4) else 'file',
-                          cuts='-' if rng.chance(1, 2) else ','.join(map(str, sorted({1 + rng.below(b['size'] - 1) for _ in range(6)}))),
+                # (memory input: the PBF parser erases every blob from the front of its input string, so ONE piece of
+                # several MB costs a memmove of the rest per blob — large files come in pieces of 32-100 KB, as from a file)
+                if b['size'] > 300000:
+                    piece = rng.choice([32768, 65536, 100003])
+                    cuts = ','.join(map(str, range(piece, b['size'], piece)))
+                else:
+                    cuts = '-' if rng.chance(1, 2) else ','.join(map(str, sorted({1 + rng.below(b['size'] - 1) for _ in range(6)})))
+                sc = scen(fmt='pbf', data=name, src='mem' if rng.chance(2, 3) else 'file', cuts=cuts,
                           mask=mask | (8 if rng.chance(1, 4) else 0), meta=rng.choice([1, 1, 0]), bt=rng.choice(['any', 'single']), pool=rng.choice([0, 0, 1, 2, 3]),
                           hdr=rng.choice([0, 1, 2]), k=-1, stop=rng.choice(['close', 'dtor']), pl=rng.choice([0, 0, 0, 1]), ps=1 + rng.below(1000000), trace=0,
                           wd=300000, stack=stack, digest=1 if full > 30000 else 0)
